@@ -6,7 +6,7 @@ from .suites_l0 import gen_decl, value_for_dtype
 from .values import materialize, rand_value
 from .props.c10 import ref_resolve, ref_match, parse as parse_name
 
-TASK_NAMES = ['x', 'y', 'tx', 'train_x', 'aa', 'a', 'm', 'n', 'xn']
+TASK_NAMES = ['x', 'y', 'tx', 'train_x', 'aa', 'a', 'm', 'n', 'xn', 'prep_task']
 GROUPS = ['', '', '', 'g', 'g:h', 'xg']
 NAMESPACES = ['n', 'xn', 'train', 'ns', 'a', 'ns2']
 PARAMS = ['a', 'b', 'lr', 'p']
